@@ -17,14 +17,18 @@ Record PInv (p : pipe) : Prop := {
   pi_eof : p_eof p = true -> flat (p_hops p) = [] /\ p_shut p = true }.
 
 (* ---- the hop-level lemmas ---- *)
+Lemma move_nil i k : move i k [] = [].
+Proof. destruct i; reflexivity. Qed.
+Lemma move_eof_nil i : move_eof i [] = [].
+Proof. destruct i; reflexivity. Qed.
 Lemma move_S i k a tl : move (S i) k (a :: tl) = a :: move i k tl.
-Proof. destruct tl; reflexivity. Qed.
+Proof. destruct tl; [rewrite move_nil|]; reflexivity. Qed.
 Lemma move_eof_S i a tl : move_eof (S i) (a :: tl) = a :: move_eof i tl.
-Proof. destruct tl; reflexivity. Qed.
+Proof. destruct tl; [rewrite move_eof_nil|]; reflexivity. Qed.
 
 Lemma flat_move : forall hs i k, flat (move i k hs) = flat hs.
 Proof.
-  induction hs as [|a tl IH]; intros i k; [reflexivity|].
+  induction hs as [|a tl IH]; intros i k; [rewrite move_nil; reflexivity|].
   destruct i as [|i].
   - destruct tl as [|b r]; [reflexivity|]. cbn [move]. destruct (snd b); [reflexivity|].
     cbn [flat fst]. rewrite <- !app_assoc. f_equal. f_equal. apply firstn_skipn.
@@ -33,7 +37,7 @@ Qed.
 
 Lemma flat_move_eof : forall hs i, flat (move_eof i hs) = flat hs.
 Proof.
-  induction hs as [|a tl IH]; intros i; [reflexivity|].
+  induction hs as [|a tl IH]; intros i; [rewrite move_eof_nil; reflexivity|].
   destruct i as [|i].
   - destruct tl as [|b r]; [reflexivity|]. cbn [move_eof]. destruct (fst a); [|reflexivity]. destruct (snd a); reflexivity.
   - rewrite move_eof_S. cbn [flat]. rewrite IH. reflexivity.
@@ -41,12 +45,12 @@ Qed.
 
 Lemma first_move hs i k : first_mark (move i k hs) = first_mark hs.
 Proof.
-  destruct hs as [|a tl]; [reflexivity|]. destruct i; [|rewrite move_S; reflexivity].
+  destruct hs as [|a tl]; [rewrite move_nil; reflexivity|]. destruct i; [|rewrite move_S; reflexivity].
   destruct tl as [|b r]; [reflexivity|]. cbn [move]. destruct (snd b); reflexivity.
 Qed.
 Lemma first_move_eof hs i : first_mark (move_eof i hs) = first_mark hs.
 Proof.
-  destruct hs as [|a tl]; [reflexivity|]. destruct i; [|rewrite move_eof_S; reflexivity].
+  destruct hs as [|a tl]; [rewrite move_eof_nil; reflexivity|]. destruct i; [|rewrite move_eof_S; reflexivity].
   destruct tl as [|b r]; [reflexivity|]. cbn [move_eof]. destruct (fst a); [|reflexivity]. destruct (snd a); reflexivity.
 Qed.
 
@@ -60,13 +64,13 @@ Qed.
 
 Lemma marks_move : forall hs i k, marks hs -> marks (move i k hs).
 Proof.
-  induction hs as [|a tl IH]; intros i k M; [exact I|].
+  induction hs as [|a tl IH]; intros i k M; [rewrite move_nil; exact I|].
   destruct i as [|i].
   - destruct tl as [|b r]; [exact I|]. cbn [move]. destruct (snd b) eqn:Eb; [exact M|].
-    destruct M as [_ M]. cbn [marks snd fst]. split; [rewrite Eb; discriminate|].
+    destruct M as [_ M]. cbn [marks snd fst]. split; [intros X; try rewrite Eb in X; discriminate|].
     destruct r as [|c r']; [exact I|]. destruct M as [Mc M]. split; [|exact M].
     intros Hc. destruct (Mc Hc) as [_ Hb]. rewrite Hb in Eb. discriminate.
-  - rewrite move_S. destruct tl as [|b r]; [exact I|].
+  - rewrite move_S. destruct tl as [|b r]; [rewrite move_nil; exact I|].
     destruct M as [Mb M]. specialize (IH i k M).
     destruct (move i k (b :: r)) as [|b' r'] eqn:E; [exact I|].
     split; [|exact IH].
@@ -78,14 +82,14 @@ Qed.
 
 Lemma marks_move_eof : forall hs i, marks hs -> marks (move_eof i hs).
 Proof.
-  induction hs as [|a tl IH]; intros i M; [exact I|].
+  induction hs as [|a tl IH]; intros i M; [rewrite move_eof_nil; exact I|].
   destruct i as [|i].
   - destruct tl as [|b r]; [exact I|]. cbn [move_eof].
     destruct (fst a) eqn:Ea; [|exact M]. destruct (snd a) eqn:Sa; [|exact M].
     destruct M as [_ M]. cbn [marks snd fst]. split; [auto|].
     destruct r as [|c r']; [exact I|]. destruct M as [Mc M]. split; [|exact M].
     intros Hc. destruct (Mc Hc) as [Hb _]. cbn [fst]. auto.
-  - rewrite move_eof_S. destruct tl as [|b r]; [exact I|].
+  - rewrite move_eof_S. destruct tl as [|b r]; [rewrite move_eof_nil; exact I|].
     destruct M as [Mb M]. specialize (IH i M).
     destruct (move_eof i (b :: r)) as [|b' r'] eqn:E; [exact I|].
     split; [|exact IH].
@@ -100,7 +104,7 @@ Lemma take_last_flat : forall hs k, hs <> [] ->
 Proof.
   induction hs as [|a tl IH]; intros k Hne; [congruence|].
   destruct tl as [|b r].
-  - cbn [take_last flat fst app]. rewrite app_nil_l. cbn [flat fst app]. repeat split; auto; try discriminate.
+  - cbn [take_last flat fst snd app first_mark marks]. repeat split; auto; try discriminate.
     apply firstn_skipn.
   - specialize (IH k ltac:(discriminate)). change (take_last k (a :: b :: r)) with (let '(r', out) := take_last k (b :: r) in (a :: r', out)).
     destruct (take_last k (b :: r)) as [r' out]. destruct IH as (F & Fm & Ne & M).
@@ -142,7 +146,7 @@ Proof.
     destruct (p_hops p) as [|a tl] eqn:Eh; [congruence|].
     constructor; cbn [p_written p_delivered p_hops p_shut p_eof].
     + cbn [on_first flat fst]. rewrite C. cbn [flat]. rewrite <- !app_assoc. reflexivity.
-    + rewrite <- Eh in *. apply marks_on_first_data; [rewrite F; exact Sh|exact M].
+    + apply marks_on_first_data; [exact F|exact M].
     + cbn [on_first first_mark snd]. cbn [first_mark] in F. exact F.
     + discriminate.
     + intros Ee. destruct (E Ee) as [_ Hs]. congruence.
@@ -244,30 +248,34 @@ Proof.
   cbn [map fold_left]. rewrite hstep_shift. apply IH.
 Qed.
 
-Lemma drain_hops : forall hs big, hs <> [] -> marks hs -> first_mark hs = true -> length (flat hs) <= big ->
-  fold_left hstep (sched 0 (length hs - 1) big) hs = repeat ([], true) (length hs - 1) ++ [(flat hs, true)].
+Lemma drain_hops' : forall tl a big, marks (a :: tl) -> snd a = true -> (length (flat (a :: tl)) <= big)%nat ->
+  fold_left hstep (sched 0 (length tl) big) (a :: tl) = repeat ([], true) (length tl) ++ [(flat (a :: tl), true)].
 Proof.
-  induction hs as [|a tl IH]; intros big Ne M F L; [congruence|].
-  destruct tl as [|b r].
-  - cbn [length Nat.sub sched fold_left repeat app flat fst]. cbn [first_mark] in F.
-    destruct a as [c m]. cbn [snd fst] in *. subst m. reflexivity.
-  - cbn [first_mark] in F. destruct M as [Mb M].
-    replace (length (a :: b :: r) - 1) with (S (length (b :: r) - 1)) by (cbn [length]; lia).
-    cbn [sched fold_left]. rewrite sched_shift.
-    (* the two steps at the head *)
+  induction tl as [|b r IH]; intros a big M F L.
+  - cbn [length sched fold_left repeat app flat fst]. destruct a as [c m]. cbn [snd fst] in *. subst m. reflexivity.
+  - destruct M as [Mb M]. cbn [length sched fold_left]. rewrite sched_shift.
     assert (Hb : hstep (hstep (a :: b :: r) (HMove 0 big)) (HMoveEof 0) = ([], true) :: (fst b ++ fst a, true) :: r).
     { cbn [hstep move]. destruct (snd b) eqn:Sb.
       - destruct (Mb eq_refl) as [Ea Sa]. cbn [move_eof]. rewrite Ea, Sa, app_nil_r.
         destruct a as [ca ma], b as [cb mb]. cbn [fst snd] in *. subst. reflexivity.
       - cbn [move_eof fst snd]. cbn [flat] in L. rewrite !app_length in L.
         rewrite skipn_all2 by lia. rewrite firstn_all2 by lia. rewrite F. reflexivity. }
-    cbn [hstep] in Hb. cbn [hstep]. rewrite Hb. rewrite fold_shift.
-    rewrite (IH big); cbn [first_mark snd flat fst]; try discriminate; auto.
-    + cbn [length repeat app]. replace (length r - 0) with (length r) by lia.
-      rewrite <- app_assoc. reflexivity.
-    + destruct r as [|c r']; [exact I|]. destruct M as [Mc M]. split; [|exact M].
-      intros Hc. destruct (Mc Hc) as [Eb Sb]. destruct (Mb Sb) as [Ea _]. cbn [fst]. rewrite Eb, Ea. auto.
-    + cbn [flat] in L. rewrite !app_length in *. lia.
+    rewrite Hb. rewrite fold_shift.
+    assert (R : fold_left hstep (sched 0 (length r) big) ((fst b ++ fst a, true) :: r) =
+                repeat ([], true) (length r) ++ [(flat ((fst b ++ fst a, true) :: r), true)]).
+    { apply IH; cbn [snd flat fst]; auto.
+      - destruct r as [|c r']; [exact I|]. destruct M as [Mc M]. split; [|exact M].
+        intros Hc. destruct (Mc Hc) as [Eb Sb]. destruct (Mb Sb) as [Ea _]. cbn [fst]. rewrite Eb, Ea. auto.
+      - cbn [flat] in L. rewrite !app_length in *. lia. }
+    etransitivity; [apply f_equal; exact R|].
+    cbn [repeat app flat fst]. rewrite <- app_assoc. reflexivity.
+Qed.
+
+Lemma drain_hops : forall hs big, hs <> [] -> marks hs -> first_mark hs = true -> (length (flat hs) <= big)%nat ->
+  fold_left hstep (sched 0 (length hs - 1)%nat big) hs = repeat ([], true) (length hs - 1)%nat ++ [(flat hs, true)].
+Proof.
+  intros [|a tl] big Ne M F L; [congruence|]. cbn [length]. replace (S (length tl) - 1)%nat with (length tl) by lia.
+  apply drain_hops'; assumption.
 Qed.
 
 Lemma fold_pstep_hops : forall es p,
@@ -278,7 +286,7 @@ Proof.
   rewrite IH. destruct e; reflexivity.
 Qed.
 
-Lemma take_last_all : forall pre c big, length c <= big ->
+Lemma take_last_all : forall pre c big, (length c <= big)%nat ->
   take_last big (pre ++ [(c, true)]) = (pre ++ [([], true)], c).
 Proof.
   induction pre as [|a pre IH]; intros c big L.
@@ -300,7 +308,7 @@ Theorem pipe_completes n es : p_shut (prun n es) = true ->
 Proof.
   intros Sh. set (p := prun n es). destruct (pipe_inv n es) as [C M F Ne E]. fold p in C, M, F, Ne, E, Sh.
   set (big := length (flat (p_hops p))).
-  exists (map to_pev (sched 0 (length (p_hops p) - 1) big) ++ [PRead big; PReadEof]).
+  exists (map to_pev (sched 0 (length (p_hops p) - 1)%nat big) ++ [PRead big; PReadEof]).
   cbv zeta. rewrite fold_left_app, fold_pstep_hops.
   rewrite drain_hops; auto; [|rewrite F; exact Sh].
   cbn [fold_left pstep p_hops p_written p_shut p_delivered p_eof].
